@@ -1,10 +1,13 @@
 package c15
 
 import (
+	_ "embed"
+	"encoding/json"
 	"fmt"
 	"os"
 	"sort"
 	"strings"
+	"sync"
 	"testing"
 
 	"verifharness/internal/vf"
@@ -52,6 +55,11 @@ func threadsFor(kind, p, p2 string) [][]Op {
 
 // classAnomaly searches the representative programs of a class for a non-serializable schedule.
 func classAnomaly(class string) (string, string) {
+	sig, msg, _ := classAnomalyCase(class)
+	return sig, msg
+}
+
+func classAnomalyCase(class string) (string, string, Case) {
 	parts := strings.Split(class, ":")
 	ks := strings.Split(parts[0], "|")
 	rel := parts[1]
@@ -67,16 +75,32 @@ func classAnomaly(class string) (string, string) {
 						}
 						// the pair under test must be the only conflicting class of the program (hopen prefixes add their own)
 						n := 0
-						sig, msg, _ := dfs(prog, 2, sequentialOutcomes(prog), &n)
+						sig, msg, trace := dfs(prog, 2, sequentialOutcomes(prog), &n)
 						if sig != "" && (strings.HasPrefix(sig, "C15 not-serializable") || strings.HasPrefix(sig, "C15 panic") || strings.HasPrefix(sig, "C15 deadlock")) {
-							return sig, msg
+							return sig, msg, Case{Program: prog, Choices: trace}
 						}
 					}
 				}
 			}
 		}
 	}
-	return "", ""
+	return "", "", Case{}
+}
+
+//go:embed witnesses.json
+var witnessesJSON []byte
+
+var witnessOnce sync.Once
+var witnessMap map[string]Case
+
+// witnesses: per listed class C15:ns:<class>, one concrete program + schedule that is not serializable on the pinned tree
+// (written by TestEnumerateClasses / TestClosure with VERIF_C15_WITNESS_OUT). The regression probe of the class replays it.
+func witnesses() map[string]Case {
+	witnessOnce.Do(func() {
+		witnessMap = map[string]Case{}
+		_ = json.Unmarshal(witnessesJSON, &witnessMap)
+	})
+	return witnessMap
 }
 
 // representative classes of the two coarse known findings
@@ -89,13 +113,23 @@ func registerProbes() {
 	vf.RegisterProbePrefix("C15:obs:", obsProbe)
 	vf.RegisterProbePrefix("C15:ns:", func(sig string) (bool, string) {
 		var s, msg string
-		for _, class := range representative[strings.TrimPrefix(sig, "C15:ns:")] {
-			if s, msg = classAnomaly(class); s != "" {
-				break
+		class := strings.TrimPrefix(sig, "C15:ns:")
+		if w, ok := witnesses()[class]; ok {
+			// the recorded witness first; if it no longer fails, any program of the class (single operation per thread)
+			if s, msg = checkSchedule(w, nil); s == "" {
+				s, msg = classAnomaly(class)
 			}
+		} else if reps := representative[class]; reps != nil {
+			for _, c := range reps {
+				if s, msg = classAnomaly(c); s != "" {
+					break
+				}
+			}
+		} else {
+			s, msg = classAnomaly(class)
 		}
 		if s == "" {
-			return false, "no non-serializable schedule found for the representative programs"
+			return false, "no non-serializable schedule found for the witness / representative programs"
 		}
 		if len(msg) > 300 {
 			msg = msg[:300] + "..."
@@ -111,6 +145,13 @@ func TestEnumerateClasses(t *testing.T) {
 		t.Skip("development aid")
 	}
 	var lines []string
+	found := map[string]Case{}
+	defer func() {
+		if out := os.Getenv("VERIF_C15_WITNESS_OUT"); out != "" {
+			b, _ := json.MarshalIndent(found, "", " ")
+			_ = os.WriteFile(out, b, 0o644)
+		}
+	}()
 	for i, a := range classKinds {
 		for _, b := range classKinds[i:] {
 			if !mutates(a) && !mutates(b) {
@@ -120,8 +161,9 @@ func TestEnumerateClasses(t *testing.T) {
 				ks := []string{a, b}
 				sort.Strings(ks)
 				class := ks[0] + "|" + ks[1] + ":" + rel
-				sig, msg := classAnomaly(class)
+				sig, msg, wcase := classAnomalyCase(class)
 				if sig != "" {
+					found[class] = wcase
 					m := strings.ReplaceAll(msg, "\n", " ")
 					if len(m) > 260 {
 						m = m[:260]
